@@ -33,6 +33,8 @@ pub enum Node {
 }
 
 pub fn eval(expr: Node) -> Result<Complex<f64>, Box<dyn error::Error>> {
+    #[cfg(feature = "verif_hooks")]
+    crate::verif_hooks::tick(crate::verif_hooks::Point::EvalEntry);
     use self::Node::*;
     match expr {
         Number(i) => Ok(i),
